@@ -19,7 +19,10 @@ func (t *T0x1212) ReplyProtocol() consts.JT808CommandType {
 }
 
 func (t *T0x1212) ReplyBody(jtMsg *jt808.JTMessage) ([]byte, error) {
-	_ = t.T0x1211.Parse(jtMsg)
+	if err := t.T0x1211.Parse(jtMsg); err != nil {
+		// 解析失败时不能沿用上一条报文(或默认值)留下的文件名等字段去应答
+		t.T0x1211 = T0x1211{}
+	}
 	p9202 := P0x9212{
 		FileNameLen:                 t.FileNameLen,
 		FileName:                    t.FileName,
